@@ -16,5 +16,5 @@ eMax     == ("p" :> 2) @@ ("c" :> 1)
 eW       == ("p" :> 4) @@ ("c" :> 2)
 eGrouped == ("p" :> FALSE) @@ ("c" :> TRUE)
 \* the last event is output only
-ConcView == <<now, cstart, ccount, memo, slot, epoch, hAdm>>
+ConcView == <<now, cstart, ccount, memo, pmemo, slot, used, epoch, hAdm>>
 =============================================================================
